@@ -20,7 +20,7 @@
     rounding (the real-number theorem does not cover objectives that are flat in doubles near the minimiser); termination of
     the bracketing loop (no cap in the source; Brent's ITMAX exit is [Exit]). *)
 From Coq Require Import ZArith List Reals.
-From LP Require Import Num NumR OrdLaws C11_Model C11_Proofs C11_Proofs_Hist C11_Proofs_NM C11_Proofs_Conv.
+From LP Require Import Num NumR OrdLaws C11_Model C11_Proofs C11_Proofs_Hist C11_Proofs_NM C11_Proofs_Conv C11_Proofs_Range.
 Import ListNotations.
 
 Section Abstract.
@@ -233,6 +233,19 @@ Theorem C11_find_maximum_not_worse (f : R -> R) xl xr tol xm tr : find_maximum R
   f xl <= f xm /\ f xr <= f xm.
 Proof. exact (find_maximum_not_worse f xl xr tol xm tr). Qed.
 Print Assumptions C11_find_maximum_not_worse.
+
+(** termination on fractional range, over the reals, in absolute terms and for vertex values of both signs (objectives whose minimum
+    value is negative): when minimize returns, the highest reported value y_hi satisfies
+      2 (y_hi - fmin) < ftol (|y_hi| + |fmin| + 1e-10),
+    and if ftol <= 1 and fmin <= 0 <= y_hi (the reported values have both signs) then y_hi - fmin < 1e-10: the fractional range of
+    two values of opposite sign is 2 (up to TINY), never small - equal magnitudes do not end the run.
+    (Example C11_Proofs_Range.ex_range_signed: f(x) = x on the vertices -2e-11, 2e-11 returns at once with ftol = 1.) *)
+Theorem C11_minimize_returns_within_ftol_signed (f : list R -> R) ftol pp o : minimize_general ROps f ftol pp = Ok o ->
+  exists hi, (hi < length pp)%nat /\ (forall k, (k < length pp)%nat -> nth0 ROps (o_y o) k <= nth0 ROps (o_y o) hi) /\
+    2 * (nth0 ROps (o_y o) hi - o_fmin o) < ftol * (Rabs (nth0 ROps (o_y o) hi) + Rabs (o_fmin o) + 1 / 10000000000) /\
+    (ftol <= 1 -> o_fmin o <= 0 <= nth0 ROps (o_y o) hi -> nth0 ROps (o_y o) hi - o_fmin o < 1 / 10000000000).
+Proof. exact (minimize_range_R f ftol pp o). Qed.
+Print Assumptions C11_minimize_returns_within_ftol_signed.
 
 (** "For unimodal one-dimensional objectives ... the returned point lies within the distance implied by the requested tolerance
     from the true minimiser, from any starting point and scale" - over the reals.
